@@ -73,7 +73,8 @@ def cases(rng, tier):
             yield "generate %s %d 0 2" % (w, rng.choice([0, 1])), "raw-mismatch-generate"
             yield "w_extkeys %s %s" % (w, sx("m/49'/1'/0'")), "raw-mismatch-extkeys"
             yield "w_group %s %s p2pkh" % (w, sx("m/44'/0'/0'/0/1")), "raw-mismatch-group"
-            yield "w_addr %s %s %s" % (w, sx("m/0/1"), rng.choice(KINDS)), "raw-mismatch-addr"
+            for kind in KINDS:
+                yield "w_addr %s %s %s" % (w, sx("m/0/1"), kind), "raw-mismatch-addr"
     # re-import from each of the 12 versions
     from .c07 import payload, pub_sec
     for name, ver in ALL.items():
@@ -91,6 +92,29 @@ def cases(rng, tier):
             if prv:
                 yield "generate %s 0 0 1" % w, "import-generate"
                 yield "wasabi %s" % w, "import-wasabi"
+    yield from _self_describing_imports(rng, tier)
+
+
+def _self_describing_imports(rng, tier):
+    """extended keys of nodes whose OWN metadata looks like a BIP44 path element of the other network (depth 1..4, child
+    number = purpose / coin type / account / chain values), serialised under each of the 12 versions: the network of the
+    imported wallet is the network of the version prefix and of nothing else"""
+    from .c07 import payload, pub_sec
+    metas = [(2, H + 1), (2, H), (1, H + 44), (1, H + 84), (3, H), (3, H + 1), (2, 1), (4, 1), (4, 0), (1, H + 49)]
+    for depth, idx in (metas if tier == "thorough" else rng.sample(metas, 4) + [(2, H + 1)]):
+        for name, ver in (list(ALL.items()) if tier == "thorough" else rng.sample(list(ALL.items()), 5)):
+            k = rng.randrange(1, N)
+            prv = name.endswith("prv")
+            key33 = (b"\x00" + k.to_bytes(32, "big")) if prv else pub_sec(k)
+            fp = bytes(rng.getrandbits(8) for _ in range(4))
+            s_ = b58check_enc(payload(ver, depth, fp, idx, bytes(rng.getrandbits(8) for _ in range(32)), key33))
+            w = "xkey:" + sx(s_)
+            yield "wallet " + w, "import-self-describing-" + name
+            root = "m" if prv else "M"
+            yield "w_addr %s %s %s" % (w, sx(root + "/3"), rng.choice(KINDS)), "import-self-describing-addr"
+            yield "w_extkeys %s %s" % (w, sx(root + "/0/1")), "import-self-describing-extkeys"
+            if prv:
+                yield "generate %s 0 0 1" % w, "import-self-describing-generate"
 
 
 def nontrivial(line, out):
